@@ -75,7 +75,19 @@ def klass(kind):
     return type(build(kind))
 
 
-ROUTES = {'copy()': lambda o: o.copy(), 'copy.copy': copy.copy, 'copy.deepcopy': copy.deepcopy}
+def _second_copy(o):
+    """Copy, mutate and solve that first copy, then copy the original AGAIN: the second copy is the one under test."""
+    first = o.copy()
+    for n in list(first.index)[:1]:
+        if first[n].dtype.kind == 'f':
+            first[n][0] = -123.0
+    first.add_variable('OnlyInFirstCopy', 1.0)
+    _FIRST_COPIES.append(first)
+    return o.copy()
+
+
+_FIRST_COPIES = []
+ROUTES = {'copy()': lambda o: o.copy(), 'copy.copy': copy.copy, 'copy.deepcopy': copy.deepcopy, 'second copy()': _second_copy}
 
 # --------------------------------------------------------------------------- mutation alphabet
 
@@ -213,10 +225,15 @@ def run_scenario(case):
     sibling = build(kind)
     sibling_before = observe(sibling)
     orig = build(kind)
-    for name in PRE[pre]:
+    for name in pre_ops(pre):
         if name in op_table(kind):
             apply(orig, kind, name)
+    del _FIRST_COPIES[:]
     cp = ROUTES[route](orig)
+    if _FIRST_COPIES:
+        sh2 = shared(_FIRST_COPIES[0], cp)
+        if sh2:
+            out.append(('copy:shared-with-earlier-copy', 'no shared mutable object', sh2[:3], 'two copies of one object share a mutable object'))
     if type(cp) is not type(orig):
         out.append(('copy:class', type(orig).__name__, type(cp).__name__, 'copy is of a different class'))
         return out, False
@@ -251,7 +268,7 @@ def run_scenario(case):
     if not out:
         # differential: the same post-history on both sides of a fresh pair gives equal observations
         a = build(kind)
-        for name in PRE[pre]:
+        for name in pre_ops(pre):
             if name in op_table(kind):
                 apply(a, kind, name)
         b = ROUTES[route](a)
@@ -317,7 +334,16 @@ def blocks(tier, seed):
         for pre in PRE:
             for route in ROUTES:
                 out.append({'kind': kind, 'pre': pre, 'route': route})
+        # every single operation of the alphabet as a pre-history (post-histories of depth 1)
+        for name in op_table(kind):
+            if [name] not in PRE.values():
+                for route in ('copy()', 'copy.deepcopy'):
+                    out.append({'kind': kind, 'pre': 'op:' + name, 'route': route, 'shallow': True})
     return out
+
+
+def pre_ops(pre):
+    return [pre[3:]] if pre.startswith('op:') else PRE[pre]
 
 
 def run_block(block, tier, seed):
@@ -328,6 +354,8 @@ def run_block(block, tier, seed):
         _snapshot_class(_M)
     names = list(op_table(kind))
     depth = 2 if tier == 'quick' else 3
+    if block.get('shallow'):
+        depth = 1 if tier == 'quick' else 2
     acc.states += 1
     if block['pre'] == 'none' and block['route'] == 'copy()':
         case = {'kind': kind, 'static': True}
